@@ -99,8 +99,8 @@ def handle (st : St) (args : List String) (impl : String) : St × Verdict :=
     | some id => (st, cmpSpec (showPath id.toPath) impl)
     | none => (st, .unknown)
   | ["idrt", h] => match ident? h with
-    -- the property's round trip: from_path (to_path id) = id
-    | some id => (st, cmpSpec (toHex id) impl)
+    -- the round trip from_path (to_path id): id with its depth byte clamped to 4 (`ident_roundtrip`)
+    | some id => (st, cmpSpec (toHex id.toPath.toIdentifier) impl)
     | none => (st, .unknown)
   | ["serpath", h] => match ident? h with
     | some id => (st, cmpSpec (toHex id.serializePath) impl)
@@ -111,6 +111,12 @@ def handle (st : St) (args : List String) (impl : String) : St × Verdict :=
   | ["lastidx", h] => match ident? h with
     | some id => (st, cmpModel (match id.toPath.lastPathIndex with | some n => toString n | none => "panic") impl)
     | none => (st, .unknown)
+  -- `ExtKeychainPath::new(depth, ..).last_path_index()` on the path *struct* (public depth field):
+  -- still an index panic for depth > 4 (`path_struct_depth_gt4_panics`)
+  | ["pathlastidx", d, l] => match nat? d, parseNatList l with
+    | some d, some [a, b, c, e] =>
+      (st, cmpModel (match (Path.new d a b c e).lastPathIndex with | some n => toString n | none => "panic") impl)
+    | _, _ => (st, .unknown)
   | ["bip32", h] => match ident? h with
     | some id => (st, cmpModel (match id.bip32 with
         | some l => "m" ++ String.join (l.map fun i => s!"/{i}")
